@@ -288,6 +288,42 @@ def channel_grid(rng):
     return E, peaks, 'xyz'[axis]
 
 
+def near_tie_grid(rng):
+    """Two disjoint percolating channels whose best paths cost almost the same (relative difference about 1e-6, absolute 1..3 on
+    energies of about 1e5): channel A is straight (5 sites), channel B is cheaper by that little and winds (7 sites).  'Cheapest over
+    all supplied peaks' is an exact comparison of costs, not a comparison up to a tolerance or a preference for short paths."""
+    axis = int(rng.integers(0, 3))
+    other = (axis + 1 + int(rng.integers(0, 2))) % 3
+    L = 4
+    dims = [1, 1, 1]
+    dims[axis], dims[other] = L, 7               # rows: 0 channel A, 1 wall, 2..5 channel B, 6 wall
+    E = np.full(dims, BLOCKED)
+
+    def idx(i, row):
+        v = [0, 0, 0]
+        v[axis], v[other] = i, row
+        return tuple(v)
+    lo, hi = 100000, 200000
+    track = [(0, 2), (1, 3), (1, 4), (2, 5), (3, 4), (3, 3)]
+    for (i, row) in track:
+        E[idx(i, row)] = int(rng.integers(lo, hi))
+    for (i, row) in [(1, 2), (1, 5), (3, 2), (3, 5)]:
+        E[idx(i, row)] = 600000
+    sum_b = sum(int(E[idx(i, row)]) for (i, row) in track) + int(E[idx(0, 2)])
+    delta = int(rng.integers(1, 4))
+    target = sum_b + delta                        # node sum of the straight path from (0, row 0): 2 a0 + a1 + a2 + a3
+    a = [int(x) for x in rng.integers(lo, hi, size=3)]
+    if (target - sum(a)) % 2:
+        a[0] += 1
+    a0 = (target - sum(a)) // 2
+    for i, val in enumerate([a0] + a):
+        E[idx(i, 0)] = val
+    peaks = [list(idx(0, 0)), list(idx(0, 2))]
+    if rng.random() < 0.5:
+        peaks.reverse()
+    return E, peaks, 'xyz'[axis]
+
+
 def perc_record_fixed(b, E, peaks, perc):
     from pymatgen.core import Lattice
     from gemdat.volume import FreeEnergyVolume
